@@ -403,8 +403,9 @@ def judge_export_bbox(ctx, gspec, tagspec, sr, cast, raise_time, o):
 
 
 # ------------------------------------------------ sequences / annotations / round trip
-def judge_sequence_export(ctx, items, sr, cast, ignore_errors, fmt, raise_time=True):
-    """items: [(gspec|None, tagspec)]. Order preserved, skip/raise policy."""
+def judge_sequence_export(ctx, items, sr, cast, ignore_errors, fmt, raise_time=True, label_raises=False):
+    """items: [(gspec|None, tagspec)]. Order preserved, skip/raise policy.  ``label_raises``: the caller's label function
+    refuses (ValueError) every tag whose value is "b" -- such an event is unconvertible exactly like one without geometry."""
     from soundevent import data
     from soundevent.io.crowsetta import annotation as A
     from soundevent.io.crowsetta import sequence as Q
@@ -414,8 +415,16 @@ def judge_sequence_export(ctx, items, sr, cast, ignore_errors, fmt, raise_time=T
     for i, (gs, ts) in enumerate(items):
         se = data.SoundEvent(uuid=uuid.UUID(int=1000 + i), geometry=geoms.build(gs) if gs is not None else None, recording=rec)
         anns.append(data.SoundEventAnnotation(uuid=uuid.UUID(int=2000 + i), sound_event=se, tags=[_tag(k, v) for k, v in ts]))
-    spec = {"kind": "sequence_export", "items": [[g, t] for g, t in items], "sr": sr, "cast": cast, "ignore_errors": ignore_errors, "fmt": fmt, "raise_time": raise_time}
+    spec = {"kind": "sequence_export", "items": [[g, t] for g, t in items], "sr": sr, "cast": cast, "ignore_errors": ignore_errors, "fmt": fmt, "raise_time": raise_time,
+            "label_raises": label_raises}
     o = {"value_only": True}
+    lkw = {}
+    if label_raises:
+        def _fn(tag):
+            if tag.value == "b":
+                raise ValueError("no label for this tag")
+            return tag.value
+        lkw = {"label_fn": _fn}
     if fmt == "seq_direct":
         refs = [ref_segment(gs, ts, sr, cast, o) for gs, ts in items]
     elif fmt == "seq":
@@ -429,18 +438,20 @@ def judge_sequence_export(ctx, items, sr, cast, ignore_errors, fmt, raise_time=T
         if fmt == "bbox":
             return r[1] < r[2] and r[3] < r[4]
         return True
+    if label_raises:
+        refs = [("err",) if any(v == "b" for _, v in ts) and r[0] == "ok" else r for r, (gs, ts) in zip(refs, items)]
     want = [r[1:] for r in refs if conv(r)]
     any_err = any(not conv(r) for r in refs)
     ctx.mon("sequence_export")
     try:
         if fmt == "seq_direct":
-            out = Q.sequence_from_annotations(anns, cast_to_segment=cast, ignore_errors=ignore_errors, value_only=True)
+            out = Q.sequence_from_annotations(anns, cast_to_segment=cast, ignore_errors=ignore_errors, value_only=True, **lkw)
             got = [(s.onset_s, s.offset_s, s.onset_sample, s.offset_sample, s.label) for s in out.segments]
         else:
             clip = data.Clip(uuid=uuid.UUID(int=9), recording=rec, start_time=0, end_time=600.0)
             ca = data.ClipAnnotation(uuid=uuid.UUID(int=10), clip=clip, sound_events=anns)
             kw = {"raise_on_time_geometries": raise_time} if fmt == "bbox" else {}
-            out = A.annotation_from_clip_annotation(ca, "/x/annot.csv", fmt, ignore_errors=ignore_errors, cast_geometry=cast, value_only=True, **kw)
+            out = A.annotation_from_clip_annotation(ca, "/x/annot.csv", fmt, ignore_errors=ignore_errors, cast_geometry=cast, value_only=True, **kw, **lkw)
             if fmt == "bbox":
                 got = [(b.onset, b.offset, b.low_freq, b.high_freq, b.label) for b in getattr(out, "bboxes", [])]
             else:
@@ -633,7 +644,7 @@ def run(ctx):
         fmt = rng.choice(["seq", "bbox", "seq_direct"])
         cast, ig, rt = rng.random() < 0.5, rng.random() < 0.5, rng.random() < 0.5
         ctx.case(("sequence_export", fmt, cast, ig, rt), {"kind": "sequence_export", "items": [[g, t] for g, t in items], "fmt": fmt, "cast": cast, "ignore_errors": ig, "raise_time": rt})
-        judge_sequence_export(ctx, items, rng.choice(SRS), cast, ig, fmt, rt)
+        judge_sequence_export(ctx, items, rng.choice(SRS), cast, ig, fmt, rt, label_raises=rng.random() < 0.3)
 
     # ---- round trips
     for _ in range(ctx.scale(900, 3000)):
@@ -697,6 +708,6 @@ def replay(ctx, w):
     elif k == "export_bbox":
         judge_export_bbox(ctx, s["g"], s["tags"], s["sr"], s["cast"], s["raise_time"], _f_from_spec(s["options"]))
     elif k == "sequence_export":
-        judge_sequence_export(ctx, [tuple(i) for i in s["items"]], s["sr"], s["cast"], s["ignore_errors"], s["fmt"], s.get("raise_time", True))
+        judge_sequence_export(ctx, [tuple(i) for i in s["items"]], s["sr"], s["cast"], s["ignore_errors"], s["fmt"], s.get("raise_time", True), label_raises=s.get("label_raises", False))
     elif k == "roundtrip":
         judge_roundtrip(ctx, s["elements"], s["fmt"], s["sr"])
